@@ -329,27 +329,54 @@ impl Monitor for C07 {
         cut_at.push(nfields);
         cut_at.sort();
         cut_at.dedup();
-        let mut esrc = String::from("little ");
+        // the emit calls arrive in one source text or one text per call; the embedder may switch interception on again
+        // while it already is on (that keeps what was captured)
+        let piecewise = rng.flip();
+        let mut pieces: Vec<String> = vec![String::from("little ")];
         let mut start = 0;
         for c in &cut_at {
             let chunk = &fields[start..*c];
+            let mut p = String::new();
             if chunk.len() == 1 && chunk[0].pack_is_bitstr && rng.flip() {
-                esrc.push_str(&format!("{} {} emit ", chunk[0].pre, chunk[0].pack));
+                p.push_str(&format!("{} {} emit ", chunk[0].pre, chunk[0].pack));
             } else {
-                esrc.push_str("[ ");
+                p.push_str("[ ");
                 for f in chunk {
-                    esrc.push_str(&format!("{} {} ", f.pre, f.pack));
+                    p.push_str(&format!("{} {} ", f.pre, f.pack));
                 }
-                esrc.push_str("] >bitstr emit ");
+                p.push_str("] >bitstr emit ");
             }
+            pieces.push(p);
             start = *c;
         }
-        esrc.push_str("output output-length");
-        let r = catch(|| xs.eval(&esrc));
-        match r {
-            Err((m, l)) => return self.fail(obs, idx, "emit:panic", esrc, format!("panic {} at {}", m, normalise_loc(&l))),
-            Ok(Err(e)) => return self.fail(obs, idx, "emit:error", esrc, show_err(&e)),
-            Ok(Ok(())) => {}
+        pieces.push("output output-length".into());
+        let mut esrc = String::new();
+        if piecewise {
+            for p in &pieces {
+                if rng.chance(1, 3) {
+                    esrc.push_str("<intercept_output(true) again> ");
+                    obs.count("emit:interception_switched_on_again");
+                    if let Err(e) = xs.intercept_output(true) {
+                        return self.fail(obs, idx, "emit:error", esrc, show_err(&e));
+                    }
+                }
+                esrc.push_str(p);
+                esrc.push_str(" <next eval> ");
+                match catch(|| xs.eval(p)) {
+                    Err((m, l)) => return self.fail(obs, idx, "emit:panic", esrc, format!("panic {} at {}", m, normalise_loc(&l))),
+                    Ok(Err(e)) => return self.fail(obs, idx, "emit:error", esrc, show_err(&e)),
+                    Ok(Ok(())) => {}
+                }
+            }
+            obs.count("emit_sequences:one_eval_per_call");
+        } else {
+            esrc = pieces.join("");
+            let r = catch(|| xs.eval(&esrc));
+            match r {
+                Err((m, l)) => return self.fail(obs, idx, "emit:panic", esrc, format!("panic {} at {}", m, normalise_loc(&l))),
+                Ok(Err(e)) => return self.fail(obs, idx, "emit:error", esrc, show_err(&e)),
+                Ok(Ok(())) => {}
+            }
         }
         let out = xs.get_data(1).and_then(|c| c.bitstr().ok().map(bits_of));
         let len = xs.get_data(0).map(show);
